@@ -73,14 +73,20 @@ def _work_rand(args):
         for tid, seed in items:
             rng = np.random.default_rng(seed)
             ev = []
+            # the box (and its inverse) live in buffers that are refilled in place for every new box, as a trajectory
+            # loop does: the distance must depend on the contents of the array, not on its identity
+            Bbuf, Ibuf = np.zeros((3, 3)), np.zeros((3, 3))
             for _ in range(8):
                 ortho = rng.random() < 0.6
                 edges = rng.uniform(0.5, 20, 3)
-                B = np.diag(edges)
+                B0 = np.diag(edges)
                 if not ortho:
-                    B[1, 0] = rng.uniform(-0.3, 0.3) * edges[0]
-                    B[2, 0] = rng.uniform(-0.3, 0.3) * edges[0]
-                    B[2, 1] = rng.uniform(-0.3, 0.3) * edges[1]
+                    B0[1, 0] = rng.uniform(-0.3, 0.3) * edges[0]
+                    B0[2, 0] = rng.uniform(-0.3, 0.3) * edges[0]
+                    B0[2, 1] = rng.uniform(-0.3, 0.3) * edges[1]
+                Bbuf[...] = B0
+                Ibuf[...] = np.linalg.inv(B0)
+                B = Bbuf
                 far = rng.choice([1.0, 4.0])
                 p = rng.uniform(-far, far, 3) * edges
                 q = rng.uniform(-far, far, 3) * edges
@@ -117,7 +123,7 @@ def _work_rand(args):
                         ok &= abs(float(rp.distance_to(rq2, B)) - d) <= tol
                         ok &= abs(float(rp2.distance_to(rq, B)) - d) <= tol
                     e['shift_inv'] = bool(ok)
-                    e['inv_flag'] = bool(abs(float(rp.distance_to(rq, np.linalg.inv(B), inv=True)) - d) <= tol)
+                    e['inv_flag'] = bool(abs(float(rp.distance_to(rq, Ibuf, inv=True)) - d) <= tol)
                     e['res_point'] = bool(abs(float(rp.distance_to(np.array(q), B)) - d) <= tol)
                     e['value'] = d
                 except Exception as exc:
